@@ -48,13 +48,15 @@ fn payload_plan(rng: &mut Rng, n: usize, for_blocking_bridge: bool) -> Plan {
     Plan { steps, fallback, fail_at: None, thread_wake: for_blocking_bridge }
 }
 
-fn c08_case(rep: &mut Report, seed: u64, idx: u64, tier: &str) {
+pub(crate) fn c08_case(rep: &mut Report, seed: u64, idx: u64, tier: &str) {
     let mut rng = Rng::fork(seed ^ 0xC08, idx);
-    let cfg = G1Cfg { big: idx % 101 == 0, ..G1Cfg::default() };
+    let cfg = if tier == "lean" { G1Cfg { big: false, max_depth: 2, oob_nonempty: true, max_groups: 2, max_attrs: 3 } } else { G1Cfg { big: idx % 101 == 0, ..G1Cfg::default() } };
     let mut m = gen::gen_model(&mut rng, &cfg);
     // payload content and source kind
     let kind = idx % 3; // 0 none, 1 blocking source, 2 async source
-    let plen = match rng.below(12) {
+    let plen = if tier == "lean" {
+        rng.range(0, 600)
+    } else { match rng.below(12) {
         0 => 0,
         1 => 1,
         2..=6 => rng.range(2, 5000),
@@ -66,7 +68,7 @@ fn c08_case(rep: &mut Report, seed: u64, idx: u64, tier: &str) {
                 rng.range(60_000, 300_000)
             }
         }
-    };
+    } };
     m.data = if kind == 0 { vec![] } else { rng.bytes(plen) };
     let payload = Arc::new(m.data.clone());
     let replay = vec!["c08".to_string(), "--seed".into(), seed.to_string(), "--only".into(), idx.to_string()];
@@ -771,7 +773,7 @@ fn summarize(g: &[(u8, BTreeMap<String, MVal>)]) -> Vec<String> {
     g.iter().map(|(t, a)| format!("{t}:{{{}}}", a.iter().map(|(k, v)| format!("{k}={}", mirror::vshort(v).chars().take(24).collect::<String>())).collect::<Vec<_>>().join(","))).collect()
 }
 
-fn c19_run_seq(rep: &mut Report, start: &Option<Model>, ops: &[(u8, String, MVal)], label: &str, replay: &[String]) {
+pub(crate) fn c19_run_seq(rep: &mut Report, start: &Option<Model>, ops: &[(u8, String, MVal)], label: &str, replay: &[String]) {
     rep.eval();
     let res = catch(|| {
         let (mut attrs, mut model) = match start {
@@ -813,7 +815,7 @@ fn c19_run_seq(rep: &mut Report, start: &Option<Model>, ops: &[(u8, String, MVal
     }
 }
 
-fn c19_traverse(rep: &mut Report, v: &MVal, replay: &[String]) {
+pub(crate) fn c19_traverse(rep: &mut Report, v: &MVal, replay: &[String]) {
     rep.eval();
     rep.count("traversals", 1);
     let iv = mirror::to_ipp_value(v);
